@@ -195,12 +195,19 @@ def _inline_success_sites(ctx: Ctx) -> None:
     # SplittingSimulation.get_next_error keeps the new error iff decoding FAILED
     ci, fn = m.method('SplittingSimulation', 'get_next_error')
     mi = ci.module
-    ifs = [n for n in ast.walk(fn) if isinstance(n, ast.If)
-           and any(isinstance(c, ast.Call) and isinstance(c.func, ast.Attribute)
-                   and c.func.attr in ('is_logical_error', 'in_codespace', 'is_success') for c in ast.walk(n.test))]
-    ctx.need(len(ifs) >= 1, 'R04.1', site_of(mi, fn), 'failure test not found in get_next_error')
-    for n in ifs:
-        table = _table_with_effect_terms(ctx, mi, fn, n.test, {})
+    def _mentions(e):
+        return any(isinstance(c, ast.Call) and isinstance(c.func, ast.Attribute)
+                   and c.func.attr in ('is_logical_error', 'in_codespace', 'is_success') for c in ast.walk(e))
+    # the failure test: an `if` / conditional expression test, or a boolean assigned to a local first
+    tests = []
+    for n in ast.walk(fn):
+        if isinstance(n, (ast.If, ast.IfExp, ast.While)) and _mentions(n.test):
+            tests.append((n, n.test))
+        elif isinstance(n, ast.Assign) and _mentions(n.value) and isinstance(n.value, (ast.BoolOp, ast.UnaryOp, ast.Call, ast.Compare)):
+            tests.append((n, n.value))
+    ctx.need(len(tests) >= 1, 'R04.1', site_of(mi, fn), 'failure test not found in get_next_error')
+    for n, test in tests:
+        table = _table_with_effect_terms(ctx, mi, fn, test, {})
         ok = len(table) == 4 and all(v == (not (a and not b)) for (a, b), v in table.items())
         ctx.ob('R04.1', site_of(mi, n), 'SplittingSimulation.get_next_error: failure test truth table', ok,
                f'table (A,B) -> failed: {sorted(table.items())}; expected not (A and not B)',
